@@ -61,6 +61,9 @@ def universe(u, c0, c1, c2, half):
     elif u == 1:        # two share an e-mail, the third has a subkey and a second identity
         ids = [[U('p', '', 'a@x')], [U('q', 'c', 'a@x')], [U('r', 'c', ''), U('p', '', '')]]
         subs = [(), (), (K(fp(7), 5, True, []),)]
+    elif u == 3:        # the same key half present twice as distinct objects (loaded from two sources), plus another key sharing its name
+        ids = [[U('n', 'c', 'a@x')], [U('n', 'c', 'a@x')], [U('n', '', '')]]
+        subs = [(K(fp(8), 5, True, []),), (K(fp(8), 5, True, []),), ()]
     else:               # public and private halves of the same key coexist, plus an unrelated key sharing the name
         ids = [[U('n', '', 'a@x')], [U('n', '', 'a@x')], [U('n', 'k', '')]]
         subs = [(K(fp(8), 5, True, []),), (K(fp(8), 5, False, []),), ()]
@@ -68,7 +71,7 @@ def universe(u, c0, c1, c2, half):
     if half:
         pub = [not p for p in pub]
     cs = (c0, c1, c2)
-    fps = [fp(0), fp(1), fp(2)] if u != 2 else [fp(0), fp(0), fp(2)]
+    fps = [fp(0), fp(1), fp(2)] if u not in (2, 3) else [fp(0), fp(0), fp(2)]
     return [K(fps[i], cs[i], pub[i], ids[i], subs[i]) for i in range(3)]
 
 
@@ -194,15 +197,32 @@ def hist_u2(o0: int, o1: int, o2: int, o3: int, o4: int, c0: int, c1: int, c2: i
     return run_history(2, ops, c0, c1, c2, half)
 
 
+@ob('O19.1d', 'index consistency (universe 3: the same key half loaded twice as two distinct objects - e.g. from a file and from text - plus a key sharing its name)',
+    'histories of 3 steps (quick) / 4 steps (thorough); creation times symbolic in {0,1}^3', cond_timeout={'q': 280, 't': 1500}, path_timeout=120,
+    partitions={'q': Q3, 't': T4})
+def hist_u3(o0: int, o1: int, o2: int, o3: int, o4: int, c0: int, c1: int, c2: int) -> bool:
+    """
+    pre: 0 <= o0 < 3
+    pre: 0 <= o1 < 6 and 0 <= o2 < 6
+    pre: 0 <= o3 < 7
+    pre: (0 <= o4 < 6 and o3 != 6) or o4 == 9
+    pre: 0 <= c0 < 2 and 0 <= c1 < 2 and 0 <= c2 < 2
+    pre: c0 == c1
+    post: _
+    """
+    ops = [o0, o1, o2, o3] + ([o4] if o4 != 9 else [])
+    return run_history(3, ops, c0, c1, c2, False)
+
+
 PAIR = (0, 1, 3, 4)          # load 0, load 1, unload 0, unload 1
 
 
 @ob('O19.2', 'five-step histories over two keys that share a name (the depth at which re-load after unload matters)',
-    'load A, load B, then three symbolic ops over {load A, load B, unload A, unload B}; universes 0 and 2; creation times of A, B symbolic in {0,1}^2',
-    cond_timeout={'q': 280, 't': 900}, path_timeout=120, partitions=[['u == %d' % u, 'a == %d' % a] for u in (0, 2) for a in range(4)])
+    'load A, load B, then three symbolic ops over {load A, load B, unload A, unload B}; universes 0, 2 and 3; creation times of A, B symbolic in {0,1}^2',
+    cond_timeout={'q': 280, 't': 900}, path_timeout=120, partitions=[['u == %d' % u, 'a == %d' % a] for u in (0, 2, 3) for a in range(4)])
 def hist_pair5(u: int, a: int, b: int, c: int, c0: int, c1: int) -> bool:
     """
-    pre: u in (0, 2)
+    pre: u in (0, 2, 3)
     pre: 0 <= a < 4 and 0 <= b < 4 and 0 <= c < 4
     pre: 0 <= c0 < 2 and 0 <= c1 < 2
     post: _
@@ -213,4 +233,4 @@ def hist_pair5(u: int, a: int, b: int, c: int, c0: int, c1: int) -> bool:
 SANITY = ['hist_u0(0, 1, 3, 0, 3, 0, 0, 0)', 'hist_u0(0, 1, 2, 4, 9, 1, 0, 1)', 'hist_u0(2, 5, 2, 1, 0, 0, 1, 0)', 'hist_u0(0, 1, 2, 6, 9, 0, 0, 0)',
           'hist_u1(0, 1, 2, 5, 4, 0, 0, 0)', 'hist_u1(2, 0, 5, 2, 9, 1, 1, 0)', 'hist_u2(0, 1, 2, 3, 4, 0, 0, 1, False)',
           'hist_u2(1, 0, 4, 1, 3, 0, 0, 0, True)', 'hist_u2(0, 2, 1, 5, 9, 1, 0, 0, False)', 'hist_pair5(0, 2, 0, 2, 0, 0)', 'hist_pair5(2, 2, 0, 2, 1, 0)',
-          'hist_pair5(0, 3, 1, 3, 0, 1)']
+          'hist_pair5(0, 3, 1, 3, 0, 1)', 'hist_u3(0, 1, 3, 6, 9, 0, 0, 0)', 'hist_u3(0, 1, 2, 3, 4, 1, 1, 0)', 'hist_pair5(3, 2, 0, 2, 0, 0)', 'hist_pair5(3, 2, 3, 0, 1, 1)']
